@@ -88,18 +88,21 @@ type KV struct{ Key, Value []byte }
 
 // Node is the harness around one Executer.
 type Node struct {
-	Cfg        Config
-	Validators []*Validator // genesis validators first, then Cfg.ExtraValidators more
-	ABI        *MockABI
-	DB         *db.DB
-	Chain      *blockchain.Chain
-	Exec       *consensus.Executer
-	Conn       *p2p.Connection
-	Genesis    *blockchain.Block
-	Logger     log.Logger
-	PeerID     p2p.PeerID // peer id attached to blocks given to Process (non-empty => never published)
-	LastResult Result
-	AllowSync  bool // let Process run blocks that start a sync (see ErrWouldSync)
+	Cfg Config
+	// NextWireHeader: header bytes the NEXT block handed to ProcessResult / ProcessValidatedPublish arrives with
+	// (build.go copyIn); nil = the canonical encoding
+	NextWireHeader []byte
+	Validators     []*Validator // genesis validators first, then Cfg.ExtraValidators more
+	ABI            *MockABI
+	DB             *db.DB
+	Chain          *blockchain.Chain
+	Exec           *consensus.Executer
+	Conn           *p2p.Connection
+	Genesis        *blockchain.Block
+	Logger         log.Logger
+	PeerID         p2p.PeerID // peer id attached to blocks given to Process (non-empty => never published)
+	LastResult     Result
+	AllowSync      bool // let Process run blocks that start a sync (see ErrWouldSync)
 
 	ctx      context.Context
 	cancel   context.CancelFunc
